@@ -17,6 +17,16 @@ CLAIMED = {
         note=TB + "Assumes moov/moof sizes < 2^32 (unchecked in the code; see C16).",
         technique="Lean 4 proof (mutual induction over box trees, schema conformance by decide) + correspondence check",
         ref="DESIGN.md section 5 C02"),
+    "C12": dict(
+        text="Kernel-checked: the model marks every state- or input-dependent panic!/assert_invariant!/index/checked-arithmetic site of the Rust code as a `.panic` outcome; for EVERY configuration and EVERY "
+             "call list no reply is `.panic` (induction with the C04 invariant: accepted payloads are non-empty, composition offsets cannot overflow, finalize's guards precede the builders), the "
+             "fragmented operations never panic and their duration arithmetic is total; loop bounds: the Annex B scanner examines at most one position per input byte, the creation-date loop runs at most "
+             "400 times for every Unix time. Correspondence: the real library built with overflow checks + debug assertions under catch_unwind and a watchdog, on exhaustive small byte strings through every "
+             "public parser, structured inputs truncated at every length / bit-flipped, all f64 classes, integer extremes, extreme metadata, extreme fragmented configurations.",
+        note=TB + "PARTIAL for what no model can exhibit: allocation failure/aborts, stack depth, format!/hex-dump code and the clap parser are covered by the differential run only. Arithmetic in the model is on unbounded Nat with explicit wraps; "
+             "Rust-side overflow is detected by the overflow-checked harness build.",
+        technique="Lean 4 proof (no-panic invariant over all call sequences, loop-step bounds) + correspondence check with panic/overflow/timeout detection",
+        ref="DESIGN.md section 5 C12"),
     "C13": dict(
         text="Kernel-checked for an ARBITRARY sink (any state, any response function: fail, short write, Ok(0), Interrupted): what the sink holds after a finish attempt is its previous content plus a "
              "prefix of the fault-free file; the reply is an error iff some write_all failed; on success the sink holds the complete file and the reported byte count is its length; after any "
@@ -109,6 +119,15 @@ CLAIMED = {
         note=TB,
         technique="Lean 4 proof (List.mergeSort permutation/sortedness/sublist lemmas) + correspondence check",
         ref="DESIGN.md section 5 C15"),
+    "C17": dict(
+        text="Kernel-checked path equivalences on the model: finish = finish_with_stats = in-place forms (same state, same chunks); audio codec None = no audio; encode_video/encode_audio are the explicit writes at the "
+             "accumulated timestamp; an accepted write queues exactly what the inner writer queues for the tick values (timestamps matter only through ticks); the finish result is a function of writer state + "
+             "configuration. PARTIAL by nature: absence of hidden state in the Rust code is not a statement about the model; it is decided by the correspondence run (the model's bytes must be reproduced "
+             "byte-exactly on a fresh instance, on spawned threads, on 16 concurrently running threads with a polluted thread-local invariant log, through Vec, Cursor, File and scripted sinks, through the builder "
+             "aliases; convenience-vs-explicit and None-vs-no-audio pairs must deliver identical files) and the Send/Sync clause by rustc on harness-autotraits (generic over every sink type).",
+        note=TB + "Thread scheduling and wall-clock time cannot be enumerated; 16-way concurrency and repeated runs sample them.",
+        technique="Lean 4 proof of path equivalences + byte-exact correspondence across instances/threads/sinks + rustc auto-trait check",
+        ref="DESIGN.md section 5 C17"),
     "C18": dict(
         text="Kernel-checked for EVERY day count: the model's year/month loops yield a valid civil date whose day number (calendar defined by summation) is the input, fuel always suffices; the "
              "printed ISO-8601 text is the zero-padded decimal of those fields (20 bytes up to year 9999); every lower-case 3-letter language code round-trips through the 15-bit mdhd field, default "
@@ -117,6 +136,14 @@ CLAIMED = {
         note=TB + "The u32 year counter and the running time of the year loop for astronomically large times belong to C12.",
         technique="Lean 4 proof (loop invariant over the year/month loops, omega) + correspondence check",
         ref="DESIGN.md section 5 C18"),
+    "C20": dict(
+        text="Kernel-checked on the model of the binary's pure logic: hex decoding inverts hex printing for every byte string; whatever `validate` accepts decodes to a non-empty frame; the `info` walk lists "
+             "only entries with a complete header inside the file, complete boxes except possibly a final `invalid` entry, and makes progress (bounded by the file length) on arbitrary contents. "
+             "PARTIAL: clap parsing, exit codes and file-system effects are glue: the check spawns the muxide binary built from /repo's current tree and compares (exit class, completion marker, reported counts, "
+             "validate verdict, info box list) with the specification and the output file byte-for-byte with the library run for the same single-frame input (model and in-process library).",
+        note=TB + "Not claimed: the CLI's 'Total size' figure (input byte count), creation_time (unimplemented in the CLI).",
+        technique="Lean 4 proof for the pure logic + process-level correspondence against the built binary",
+        ref="DESIGN.md section 5 C20"),
 }
 
 REASON_PENDING = "not claimed yet in this build session: the model and harness cover it, the property theorems and judge are still being written (see DESIGN.md section 9)"
